@@ -142,6 +142,14 @@ func lex(src string) ([]tok, error) {
 			for i < len(src) && src[i] != '\n' {
 				i++
 			}
+		case c == '&' && i+1 < len(src) && (unicode.IsLetter(rune(src[i+1])) || src[i+1] == '_') && (i == 0 || src[i-1] != '&'):
+			// &x: the address of a local variable that lives in a cell (an identifier named "&x")
+			j := i + 1
+			for j < len(src) && (unicode.IsLetter(rune(src[j])) || unicode.IsDigit(rune(src[j])) || src[j] == '_') {
+				j++
+			}
+			out = append(out, tok{"id", src[i:j], i})
+			i = j
 		case unicode.IsLetter(rune(c)) || c == '_':
 			j := i
 			for j < len(src) && (unicode.IsLetter(rune(src[j])) || unicode.IsDigit(rune(src[j])) || src[j] == '_' || src[j] == '$') {
@@ -563,6 +571,8 @@ func (l *lexer) params(stop string) ([]Param, error) {
 type Clause struct {
 	Tags  []string // property ids
 	Label string
+	Uses  []string // lemmas for this clause only ("label by l1, l2: ...")
+	Quiet bool     // label written quiet-<label>: proved as usual, but assumed at a call site only for the caller's clauses that name it
 	E     Expr
 	Src   string
 }
@@ -626,6 +636,7 @@ type PureFunc struct {
 	Body    Expr // nil for ghost (uninterpreted) functions
 	Decr    []Expr
 	Opaque  bool
+	Init    Expr // ghost state only: its value for a freshly allocated, zero-valued object (nil: unconstrained)
 	State   bool // ghost state: a mutable abstract field of an object (one parameter), kept in a heap region
 	File    string
 	Pkg     string
@@ -738,9 +749,13 @@ func ParseFile(path, text string, goFile bool) (*File, error) {
 				r = strings.TrimSpace(strings.TrimPrefix(r, "state"))
 			}
 			r = strings.TrimSpace(strings.TrimPrefix(r, "func"))
-			pf, err := parsePure(r, word != "ghost")
+			pf, err := parsePure(r, word != "ghost" || isState)
 			if pf != nil {
 				pf.State = isState
+				if isState && pf.Body != nil {
+					// `ghost state g(x *T) R = e`: e is the value of g for a freshly allocated (zero-valued) T
+					pf.Init, pf.Body = pf.Body, nil
+				}
 			}
 			if err != nil {
 				return nil, fail(err)
@@ -997,9 +1012,19 @@ func parseTags(s string) ([]string, string) {
 func parseClause(s string) (Clause, error) {
 	tags, rest := parseTags(s)
 	label := ""
+	var uses []string
 	// label: identifier followed by ':' (but not '::')
 	if i := strings.Index(rest, ":"); i > 0 && !strings.HasPrefix(rest[i:], "::") {
 		cand := strings.TrimSpace(rest[:i])
+		// "label by lemma1, lemma2": lemmas made available to this clause's obligations only
+		if j := strings.Index(cand, " by "); j > 0 {
+			for _, u := range strings.Split(cand[j+4:], ",") {
+				if u = strings.TrimSpace(u); u != "" {
+					uses = append(uses, u)
+				}
+			}
+			cand = strings.TrimSpace(cand[:j])
+		}
 		ok := cand != ""
 		for _, r := range cand {
 			if !(unicode.IsLetter(r) || unicode.IsDigit(r) || r == '_' || r == '-') {
@@ -1015,7 +1040,15 @@ func parseClause(s string) (Clause, error) {
 	if err != nil {
 		return Clause{}, err
 	}
-	return Clause{Tags: tags, Label: label, E: e, Src: rest}, nil
+	if label == "" {
+		uses = nil
+	}
+	quiet := false
+	if strings.HasPrefix(label, "quiet-") {
+		// a post-condition that call sites do not assume wholesale: a caller's clause asks for it by name ("by f.label")
+		quiet, label = true, strings.TrimPrefix(label, "quiet-")
+	}
+	return Clause{Tags: tags, Label: label, E: e, Src: rest, Uses: uses, Quiet: quiet}, nil
 }
 
 // parsePure: name(params) T = expr    or   name(params) T
